@@ -87,6 +87,31 @@ def special_cases(ctx):
         c.stmts = [Import("ipv4"), Let("i", Call("ipv4::icmp::flow", IP(rand_ip(r)), IP(rand_ip(r))))] + \
                   [Do(Call("i." + h, STR(b"p"))) for h in hist]
         cases.append(c)
+    # datagrams handed out without their IP header (client_raw_dgram / server_raw_dgram) and put on the wire by hand
+    # between the flow's own addresses: the same UDP length and checksum rules
+    for i in range(40 if ctx.thorough else 12):
+        src, dst, sp, dp = rand_ip(r), rand_ip(r), rand_port(r), rand_port(r)
+        c = Case()
+        c.name, c.files, c.text, c.meta = "rd%d" % i, {}, None, []
+        c.stmts = [Import("ipv4"), Let("u", Call("ipv4::udp::flow", SOCK(src, sp), SOCK(dst, dp)))]
+        want = []
+        for j in range(r.randint(1, 5)):
+            side = r.choice(["client", "server"])
+            a, b = (src, dst) if side == "client" else (dst, src)
+            kw = {"csum": False} if r.random() < 0.25 else {}
+            pl = zero_sum_payload(a, sp if side == "client" else dp, b, dp if side == "client" else sp, r) if r.random() < 0.2 \
+                else bytes(r.getrandbits(8) for _ in range(r.choice([0, 1, 2, 3, 40, 255, 256])))
+            inner = Call("u.%s_raw_dgram" % side, _x=[STR(pl)], **kw)
+            if r.random() < 0.3:
+                c.stmts.append(Do(Call("u.%s_dgram" % side, _x=[STR(rand_payload(r, 9))])))
+                want.append(False)
+            if r.random() < 0.7:
+                c.stmts.append(Do(Call("ipv4::datagram", IP(a), IP(b), _x=[inner], **({"proto": 17} if r.random() < 0.5 else {}))))
+            else:
+                c.stmts += [Let("g%d" % j, Call("ipv4::frag", IP(a), IP(b), _x=[inner], proto=17)), Do(Call("g%d.datagram" % j))]
+            want.append("csum" not in kw)
+        c.gen = {"kind": "udp-raw-dgram", "csum_on": want}
+        cases.append(c)
     # sums that carry twice: payload of 0xff bytes, odd and even lengths
     for i, n in enumerate([1, 2, 3, 255, 256, 1399, 1400]):
         c = Case()
@@ -155,6 +180,17 @@ def run(ctx):
                     ctx.fail("udp-csum-missing", "record %d: UDP flow datagram built with checksumming enabled carries checksum 0"
                              % rec, diff.replay_of(c))
                     break
+        if c.gen.get("kind") == "udp-raw-dgram":
+            us = [t for t in ti if t[2] == 17]
+            if len(us) != len(c.gen["csum_on"]):
+                ctx.fail("udp-raw-dgram-shape", "%d UDP datagrams on the wire, the program builds %d" % (len(us), len(c.gen["csum_on"])),
+                         diff.replay_of(c))
+            else:
+                for on, t in zip(c.gen["csum_on"], us):
+                    if on and t[5][6:8] == b"\x00\x00":
+                        ctx.fail("udp-csum-missing", "record %d: a raw datagram built with checksumming enabled carries checksum 0" % t[0],
+                                 diff.replay_of(c))
+                        break
         # ... and the flow datagrams of the special cases
         if c.gen.get("kind") == "udp-zero-fold":
             for (rec, depth, proto, src, dst, l4) in ti:
